@@ -3702,6 +3702,11 @@ namespace detail {
             bool done = false;
             while (p_ < input_end_ && !done)
             {
+                if (state_stack.empty()) // an unmatched closing token popped the last state
+                {
+                    ec = jmespath_errc::syntax_error;
+                    return jmespath_expression{};
+                }
                 switch (state_stack.back())
                 {
                     case expr_state::start: 
@@ -4175,8 +4180,9 @@ namespace detail {
                                 ++column_;
                                 break;
                             }
-                            default:
-                                break;
+                            default: // after an argument only ',' or ')' can follow
+                                ec = jmespath_errc::expected_rparen;
+                                return jmespath_expression{};
                         }
                         break;
 
